@@ -298,6 +298,52 @@ fn scenario(cfg: NetCfg, rng: &mut Rng, rounds: u64, fails: &mut Vec<Value>, all
     checked
 }
 
+/// BLOCKHASH over the whole 256-block window: a chain of 300 blocks (mined, part committed, part not), a
+/// contract that stores BLOCKHASH(NUMBER - d) at slot d, called for d at and around the edges; read back
+/// with eth_getStorageAt and compared with the hashes of the finalised blocks.
+fn blockhash_window(rng: &mut Rng, fails: &mut Vec<Value>) -> u64 {
+    let cfg = NetCfg::regtest();
+    let mut d = Drv::new(cfg.clone());
+    d.record_cases = false;
+    let t0 = 1_700_000_000u64;
+    let _ = d.initialise(&Hx::zero32(), t0);
+    if d.next != cfg.genesis_height + 1 { fails.push(json!({"what": "C19: brc20_initialise did not create genesis", "case": {}})); return 0; }
+    // runtime: d = calldata[0..32]; sstore(d, blockhash(number - d))
+    let runtime = vec![0x5f, 0x35, 0x80, 0x43, 0x03, 0x40, 0x90, 0x55, 0x00];
+    let h = rnd_hash(rng);
+    let (r, _) = d.deploy(PKSCRIPTS[0], &sim::init_returning(&runtime), 400, &rnd_hash(rng), t0 + 600, &h);
+    let Some(probe) = r.ok().and_then(|v| v.get("contractAddress").and_then(|a| a.as_str()).map(|s| Hx::from_hex(s).to_address())) else {
+        fails.push(json!({"what": "C19: BLOCKHASH probe deployment failed", "case": {"history": d.log.clone()}})); return 0;
+    };
+    let _ = d.finalise(t0 + 600, &h);
+    let mut checked = 0u64;
+    let mut ts = t0 + 1200;
+    // 150 blocks, commit, 150 more uncommitted: the window spans committed and uncommitted rows
+    let _ = d.mine(150, ts); let _ = d.commit(); ts += 600;
+    let _ = d.mine(150, ts); ts += 600;
+    for phase in ["uncommitted tail", "after commit"] {
+        let number = d.next;
+        let hb = maybe_zero_hash(rng);
+        let dists: Vec<u64> = vec![1, 2, 3, 128, 149, 150, 151, 255, 256, 257, 300, number, number + 1];
+        for dist in &dists {
+            let _ = d.call(PKSCRIPTS[1], Some(probe), Some(&alloy::primitives::U256::from(*dist).to_be_bytes::<32>()), 100, &rnd_hash(rng), ts, &hb);
+        }
+        let _ = d.finalise(ts, &hb);
+        for dist in &dists {
+            let want = if *dist >= 1 && *dist <= 256 && *dist <= number { d.hashes.get(&(number - dist)).cloned().unwrap_or(Hx::zero32()) } else { Hx::zero32() };
+            let got = d.storage(probe, *dist);
+            checked += 1;
+            if got != want {
+                fails.push(json!({"what": format!("C19: BLOCKHASH(NUMBER - {}) seen by a transaction at height {} ({}) is not the hash of that finalised block (zero beyond the 256-block window)", dist, number, phase),
+                    "case": {"distance": dist, "height": number, "got": got.hex0x(), "want": want.hex0x(), "history_tail": d.log.iter().rev().take(6).collect::<Vec<_>>()}}));
+            }
+        }
+        let _ = d.commit();
+        ts += 600;
+    }
+    checked
+}
+
 pub fn run(out: &Path, seed: u64, thorough: bool) -> Result<(), Box<dyn std::error::Error>> {
     let t0 = Instant::now();
     let mut rng = Rng::new(seed ^ 0xC19);
@@ -317,6 +363,7 @@ pub fn run(out: &Path, seed: u64, thorough: bool) -> Result<(), Box<dyn std::err
             checked += scenario(cfg, &mut rng, rounds, &mut fails, &mut all, &mut stats);
         }
     }
+    checked += blockhash_window(&mut rng, &mut fails);
     let shards = (all.terms.len() / 20).max(1).min(16);
     let files = cf::write_shards(out, "c19_env", envs::TIE_IMPORTS, "ecase", envs::TIE_EVAL, &all.terms, shards)?;
     let mut jl = String::new();
